@@ -149,6 +149,64 @@ Definition verdict_eqb (a b : verdict) : bool :=
   | _, _ => false
   end.
 
+(* ---- the configuration as the operator WROTE it ----
+   The two options of the idp section that _parse_request reads (want_authn_requests_signed,
+   want_authn_requests_only_with_valid_cert) are whatever Python value the configuration source holds.
+   Config.load_special (config.py): the texts "true" / "false" (exactly these) become True / False,
+   every other value is stored as it is; Config.getattr answers None for an option that was never
+   stored.  _parse_request then uses the stored value through its TRUTH value only ("if
+   only_valid_cert:", "must and binding == ...", "if must:" in correctly_signed_message; None counts as
+   not set): a non-empty text counts as set whatever it says, a number counts as set unless it is 0.
+   The way the configuration object was made (load_special on a live Config, IdPConfig / SPConfig /
+   Config .load of the whole dict, config_factory) plays no part: no such input. *)
+Inductive cval :=
+  | CAbsent                 (* the key is not in the section *)
+  | CNone                   (* None *)
+  | CBool (b : bool)
+  | CInt (z : Z)
+  | CStr (s : string).
+
+Definition load_special_val (v : cval) : cval :=
+  match v with
+  | CStr s => if String.eqb s "true" then CBool true else if String.eqb s "false" then CBool false else v
+  | _ => v
+  end.
+
+(* bool(value) *)
+Definition py_true (v : cval) : bool :=
+  match v with
+  | CAbsent | CNone => false
+  | CBool b => b
+  | CInt z => negb (Z.eqb z 0)
+  | CStr s => negb (is_empty s)
+  end.
+
+(* what _parse_request makes of Config.getattr("want_authn_requests_signed", "idp"): None, or the truth value of
+   what is stored (a non-empty text counts as set whatever it says: fail-closed) *)
+Definition stored (v : cval) : option bool :=
+  match load_special_val v with
+  | CAbsent | CNone => None
+  | w => Some (py_true w)
+  end.
+
+(* ... and of Config.getattr("want_authn_requests_only_with_valid_cert", "idp"), since 9e47ced6: a text is read by
+   what it says - stripped and lower-cased it must be one of the words below to opt in, any other text is False -;
+   anything that is no text counts by its truth value as before *)
+Definition OVC_YES : list string := ["true"; "yes"; "on"; "1"].
+
+Definition stored_ovc (v : cval) : option bool :=
+  match load_special_val v with
+  | CAbsent | CNone => None
+  | CStr s => Some (mem (lower (strip s)) OVC_YES)
+  | w => Some (py_true w)
+  end.
+
+(* before 9e47ced6 (finding C07-F2): the truth value of the text *)
+Definition stored_ovc_v0 : cval -> option bool := stored.
+
+(* the two options as written *)
+Record source := { s_ws : cval; s_ovc : cval }.
+
 Section Model.
   Variables cert esig dsig doc : Type.
   (* xmlsec1 restricted to one certificate: does the enveloped signature verify for this content *)
@@ -301,6 +359,18 @@ Section Model.
       (Build_config (etype c) (eps c) (want_signed c) (only_valid_cert c) (time_diff c) (only_md c) m (cert_valid c))
       (now x) (expected x) (binding x) (enc x) (origdoc x) (msg x) (env x) (relay_state x) (sigalg x) (signature x).
 
+  (* the receiver as configured from the source s (everything else as in x); f = how the certificate-only option
+     is read *)
+  Definition load_src_with (f : cval -> option bool) (s : source) (x : input) : input :=
+    let c := cfg x in
+    Build_input
+      (Build_config (etype c) (eps c) (stored (s_ws s)) (f (s_ovc s)) (time_diff c) (only_md c) (md_certs c)
+         (cert_valid c))
+      (now x) (expected x) (binding x) (enc x) (origdoc x) (msg x) (env x) (relay_state x) (sigalg x) (signature x).
+
+  Definition load_src := load_src_with stored_ovc.          (* the code as it is now *)
+  Definition load_src_v0 := load_src_with stored_ovc_v0.    (* before 9e47ced6: finding C07-F2 *)
+
   Inductive op :=
     | Req (r : nat) (x : input)          (* a request handed to receiver r (md_certs of x's configuration is ignored) *)
     | Reload (r : nat) (m : mdfun)       (* successful metadata reload of receiver r *)
@@ -361,6 +431,9 @@ Arguments check_signature {cert esig}.
 Arguments redirect_sig_ok {cert dsig doc}.
 Arguments parse_request {cert esig dsig doc}.
 Arguments with_md {cert esig dsig doc}.
+Arguments load_src_with {cert esig dsig doc}.
+Arguments load_src {cert esig dsig doc}.
+Arguments load_src_v0 {cert esig dsig doc}.
 Arguments Req {cert esig dsig doc}.
 Arguments Reload {cert esig dsig doc}.
 Arguments ReloadFailed {cert esig dsig doc}.
